@@ -300,7 +300,10 @@ pub open spec fn entry_verdict_bytes(b: Seq<u8>) -> V1BV {
     else if !valid_utf8(v1_window(b)) {
         // [C05] a character cut short by the end of a line whose CR has not arrived yet may be completed by the next
         // read: the verdict is that of the (valid) text before it
-        if first_index_of(b, 13u8) >= b.len() && utf8_truncated(b) { V1BV::Line(header_verdict(b.subrange(0, utf8_valid_up_to(b)))) }
+        if first_index_of(b, 13u8) >= b.len() && utf8_truncated(b) {
+            // (a text without CR is never accepted - lemma_no_cr_prefix - so this is always a rejection)
+            match header_verdict(b.subrange(0, utf8_valid_up_to(b))) { V1V::Reject(k) => V1BV::Line(V1V::Reject(k)), V1V::Accept(_) => V1BV::InvalidUtf8 }
+        }
         else { V1BV::InvalidUtf8 }
     }
     else { V1BV::Line(header_verdict(v1_window(b))) }
